@@ -9,7 +9,7 @@ StripIfOpaque(u) == IF u.opaque /\ u.frag = None /\ u.query = None THEN [u EXCEP
 
 SetProtocolO(o, u, v, idna) == ParseOvO(Append(v, 58), u, "schemeStart", idna, o).u
 (* WithPercentEncodeSinglePercentSign also governs the credential setters: a '%' that starts no valid escape is written %25 *)
-EncStrO(o, S, s) == Flat([i \in 1..Len(s) |-> IF o.singlePct /\ s[i] = 37 /\ ~IsPctTriple(s, i) THEN PctCp(37) ELSE EncCp(S, s[i])])
+EncStrO(o, S, s) == EncStrSP(o, S, s)
 SetUsernameO(o, u, v) == IF CannotHaveUPP(u) THEN u ELSE [u EXCEPT !.user = EncStrO(o, SetUserinfo, Ingest(v))]
 SetPasswordO(o, u, v) == IF CannotHaveUPP(u) THEN u ELSE [u EXCEPT !.pass = EncStrO(o, SetUserinfo, Ingest(v))]
 SetUsername(u, v) == SetUsernameO(DefaultOpts, u, v)
